@@ -88,7 +88,7 @@ func runC10(c *eng.Ctx) {
 		}, accum, map[string]string{})
 	}
 	if f := r1.NeedFunc(pkgHook + ".(*Hook).LoadConfig"); f != nil {
-		checkErrSites(r1, f, func(o types.Object) bool { return o.Name() == "LoadAndValidate" }, nil, nil)
+		checkErrSites(r1, f, func(o types.Object) bool { return nameOf(o) == "LoadAndValidate" }, nil, nil)
 	}
 	// the one allow-listed discard: GetSchema drops LoadSchema's error, a nil schema makes ValidateConfig fail closed
 	if f := r1.NeedFunc(pkgCfg + ".ValidateConfig"); f != nil {
@@ -124,14 +124,14 @@ func runC10(c *eng.Ctx) {
 		info := f.Pkg.TypesInfo
 		for _, call := range callsDeep(info, f.Decl.Body, func(o types.Object, _ *ast.CallExpr) bool {
 			fn, ok := o.(*types.Func)
-			return ok && (strings.HasPrefix(fn.Name(), "Unmarshal") || fn.Name() == "Decode" || fn.Name() == "NewDecoder")
+			return ok && (strings.HasPrefix(fn.Name(), "Unmarshal") || nameOf(fn) == "Decode" || nameOf(fn) == "NewDecoder")
 		}) {
 			fn := eng.CalleeOf(info, call).(*types.Func)
 			if f.Key == pkgCfg+".LoadSchema" || f.Key == pkgCfg+".GetSchema" {
 				continue // decodes the embedded schema, not the hook's config
 			}
 			n++
-			ok := fn.Pkg() != nil && fn.Pkg().Path() == "sigs.k8s.io/yaml" && fn.Name() == "Unmarshal"
+			ok := fn.Pkg() != nil && fn.Pkg().Path() == "sigs.k8s.io/yaml" && nameOf(fn) == "Unmarshal"
 			r2.Check(ok, fmt.Sprintf("%s -> %s.%s", f.Key, fn.Pkg().Name(), fn.Name()), call.Pos(), "sigs.k8s.io/yaml.Unmarshal", "the config is decoded with "+fn.FullName()+": YAML and JSON spellings of one document no longer take the same path (types of numbers, duplicate keys, unknown fields differ)")
 		}
 	}
@@ -849,13 +849,13 @@ func runC10R8(c *eng.Ctx, r *eng.RuleCtx) {
 		isLib := func(n *eng.GNode) bool {
 			return len(vg.CallsAt(n, func(o types.Object, _ *ast.CallExpr) bool {
 				fn, ok := o.(*types.Func)
-				return ok && fn.Name() == "LabelSelectorAsSelector" && fn.Pkg() != nil && strings.HasSuffix(fn.Pkg().Path(), "apis/meta/v1")
+				return ok && nameOf(fn) == "LabelSelectorAsSelector" && fn.Pkg() != nil && strings.HasSuffix(fn.Pkg().Path(), "apis/meta/v1")
 			})) > 0
 		}
 		okAll, nret := true, 0
 		var lib *ast.CallExpr
 		for _, n := range vg.Nodes {
-			for _, m := range vg.CallsAt(n, func(o types.Object, _ *ast.CallExpr) bool { return o != nil && o.Name() == "LabelSelectorAsSelector" }) {
+			for _, m := range vg.CallsAt(n, func(o types.Object, _ *ast.CallExpr) bool { return o != nil && nameOf(o) == "LabelSelectorAsSelector" }) {
 				lib = m.Call
 			}
 			ret, isR := n.Node.(*ast.ReturnStmt)
